@@ -525,6 +525,15 @@ func (w *World) runStep(g *Grammar, fn *ssa.Function, stream []tokSpec, namespac
 			o := st.obj(scObj)
 			o.Fields[streamPos] = aInt(int64(len(stream)))
 			w.setToken(st, scObj, sf, tokSpec{Unknown: true})
+			// a construct wrapped around the step just built (its predicates): the
+			// step's own node is what the questions asked here are about
+			if len(args) == 2 && args[1].Kind == avPtr && args[1].Field < 0 {
+				if nm, ok := st.obj(args[1].Obj).Type.(*types.Named); ok && g.NewAxis != nil {
+					if rt, ok2 := derefNamed(axisNodeTypeOf(g)); ok2 && rt == nm {
+						return true, args[1]
+					}
+				}
+			}
 			return true, AVal{Kind: avUnknown, Tag: "node:" + callee.Name()}
 		}
 		return false, AVal{}
@@ -610,4 +619,22 @@ func (w *World) isGenericParserHelper(g *Grammar, f *ssa.Function) bool {
 		}
 	}
 	return w.buildsOperatorNodes(g, f)
+}
+
+// axisNodeTypeOf: the type of the node the axis-node constructor allocates.
+func axisNodeTypeOf(g *Grammar) types.Type {
+	var t types.Type
+	for _, b := range g.NewAxis.Blocks {
+		for _, in := range b.Instrs {
+			if a, ok := in.(*ssa.Alloc); ok && a.Heap {
+				if _, isStruct := a.Type().(*types.Pointer).Elem().Underlying().(*types.Struct); isStruct {
+					t = a.Type()
+				}
+			}
+		}
+	}
+	if t == nil {
+		return types.Typ[types.Invalid]
+	}
+	return t
 }
